@@ -21,14 +21,14 @@ def model_check(ctx):
     if ctx.thorough:
         cfg = ctx.path("MCthorough.cfg")
         src = open(os.path.join(vlib.SPEC, "crypto", "MCKes.cfg")).read()
-        open(cfg, "w").write(src.replace("Depths = {1, 2, 3, 4}", "Depths = {1, 2, 3, 4, 5}"))
+        open(cfg, "w").write(src.replace("Depths = {1, 2, 3, 4}", "Depths = {1, 2, 3, 4, 5}").replace('Msgs = {"a"}', 'Msgs = {"a", "b"}'))
     ctx.tlc_mc("crypto", "MCKes", cfg, workers=4, required_actions=MC_ACTIONS, timeout=1500)
 
 
 def kes_trace(ctx, binary):
     tr = ctx.path("kes_trace.ndjson")
     if ctx.thorough:
-        args = ["--runs", 5, "--full", 5, "--samples", 12]
+        args = ["--runs", 8, "--full", 5, "--samples", 12]
     else:
         args = ["--runs", 1, "--full", 4, "--samples", 3]
     ctx.run_bin(binary, ["kes-trace", "--seed", ctx.seed, "--out", tr] + args)
